@@ -30,6 +30,13 @@ import (
 const upTimeout = 300 * time.Millisecond
 const upSlack = 1000 * time.Millisecond
 
+func upTimeoutOf(which string) time.Duration {
+	if which == "dns53s" {
+		return 5 * upTimeout
+	}
+	return upTimeout
+}
+
 // ---- TCP forwarder in front of the TLS server ------------------------------------------------
 
 type forwarder struct {
@@ -389,11 +396,13 @@ func startUpSystem() *upSystem {
 	sys.dns = &dns53Server{c: pc}
 	go sys.dns.loop()
 	dnsEp := &endpoint.DNSEndpoint{Addr: pc.LocalAddr().String()}
-	for name, r := range map[string]*resolver.DNS{"doh": mk(ep), "dns53": mk(dnsEp)} {
+	// "dns53s": the plain-DNS side once more behind a proxy with a five times longer timeout (room for scenarios whose
+	// steps must fall in a given order within one timeout)
+	for name, r := range map[string]*resolver.DNS{"doh": mk(ep), "dns53": mk(dnsEp), "dns53s": mk(dnsEp)} {
 		a := "127.0.0.1:" + strconv.Itoa(freePort())
 		ctx, cancel := context.WithCancel(context.Background())
 		sys.cancel = append(sys.cancel, cancel)
-		p := proxy.Proxy{Addrs: []string{a}, Upstream: r, Timeout: upTimeout, MaxInflightRequests: 32}
+		p := proxy.Proxy{Addrs: []string{a}, Upstream: r, Timeout: upTimeoutOf(name), MaxInflightRequests: 32}
 		go func() { _ = p.ListenAndServe(ctx) }()
 		sys.addr[name] = a
 		sys.tcp[name] = &tcpClient{}
@@ -413,7 +422,7 @@ func (s *upSystem) stop() {
 func (s *upSystem) query(which, proto string, payload []byte) string {
 	start := time.Now()
 	var out string
-	wait := upTimeout + upSlack + 500*time.Millisecond
+	wait := upTimeoutOf(which) + upSlack + 500*time.Millisecond
 	if proto == "udp" {
 		rep, err := udpExchange(s.addr[which], payload, wait)
 		if err != nil {
@@ -430,7 +439,7 @@ func (s *upSystem) query(which, proto string, payload []byte) string {
 		}
 	}
 	lat := "ok"
-	if time.Since(start) > upTimeout+upSlack {
+	if time.Since(start) > upTimeoutOf(which)+upSlack {
 		lat = "slow"
 	}
 	return out + " lat=" + lat
@@ -475,12 +484,21 @@ func init() {
 				time.Sleep(300 * time.Millisecond) // let the forwarder resume
 			}
 		}
-		runDNS := func(proto string, payload []byte, script []dgram) {
+		var runDNSOn func(which, proto string, payload []byte, script []dgram, emit bool) (string, string)
+		runDNS := func(proto string, payload []byte, script []dgram) { runDNSOn("dns53", proto, payload, script, true) }
+		// upfpair: two exchanges back to back on the long-timeout proxy, no draining in between, one case line
+		runPair := func(proto string, p1 []byte, s1 []dgram, p2 []byte, s2 []dgram) {
+			c1, o1 := runDNSOn("dns53s", proto, p1, s1, false)
+			c2, o2 := runDNSOn("dns53s", proto, p2, s2, false)
+			c.Emit("upfpair "+proto+" "+c1+" "+c2, o1+" | "+o2)
+			time.Sleep(700 * time.Millisecond) // strays of the pair
+		}
+		runDNSOn = func(which, proto string, payload []byte, script []dgram, emit bool) (string, string) {
 			sys.dns.mu.Lock()
 			sys.dns.script = script
 			sys.dns.mu.Unlock()
 			qStart := time.Now()
-			out := sys.query("dns53", proto, payload)
+			out := sys.query(which, proto, payload)
 			var ss []string
 			for _, d := range script {
 				ss = append(ss, d.String())
@@ -490,17 +508,41 @@ func init() {
 				ss = []string{"none"}
 				c.Stat("dns53:silent")
 			}
-			c.Emit("upf dns53 "+proto+" "+hx(payload)+" "+strings.Join(ss, ","), out)
+			if !emit {
+				return hx(payload) + " " + strings.Join(ss, ","), out
+			}
+			c.Emit("upf "+which+" "+proto+" "+hx(payload)+" "+strings.Join(ss, ","), out)
 			// let late datagrams of this script drain before the next query
 			if len(script) > 0 {
 				if last := script[len(script)-1].delay; last > 300 {
 					time.Sleep(time.Until(qStart.Add(time.Duration(last+50) * time.Millisecond)))
 				}
 			}
+			return "", out
+		}
+		parseScript := func(tok string) []dgram {
+			var script []dgram
+			if tok != "none" {
+				for _, s := range strings.Split(tok, ",") {
+					p := strings.Split(s, ":")
+					if len(p) == 4 {
+						d := dgram{kind: p[1]}
+						d.delay, _ = strconv.Atoi(p[0])
+						d.n, _ = strconv.Atoi(p[2])
+						d.salt, _ = strconv.Atoi(p[3])
+						script = append(script, d)
+					}
+				}
+			}
+			return script
 		}
 		if ls := replayLines(); ls != nil {
 			for _, l := range ls {
 				f := strings.Fields(l)
+				if len(f) == 6 && f[0] == "upfpair" {
+					runPair(f[1], unhx(f[2]), parseScript(f[3]), unhx(f[4]), parseScript(f[5]))
+					continue
+				}
 				if len(f) < 5 || f[0] != "upf" {
 					continue
 				}
@@ -631,6 +673,19 @@ func init() {
 						script = append(script, dgram{delay: d, kind: []string{"wrongid", "wronghi", "short"}[r.Intn(3)], n: 30, salt: r.Intn(256)})
 					}
 					runDNS(proto, payload, script)
+					continue
+				}
+				if i == c.n/2 || r.Chance(2) {
+					// the answer to the first query arrives after its deadline, and the next query - another question - carries
+					// the same ID and is answered later than that stray datagram arrives: it must get its own answer (whatever
+					// the resolver keeps between two exchanges - a socket, say - must not hand it the stray one)
+					c.Stat("dns53:late-then-same-id")
+					slow := int(upTimeoutOf("dns53s") / time.Millisecond)
+					other := r.sockQuery(adv)
+					other[0], other[1] = payload[0], payload[1]
+					n1 := 40 + r.Intn(100)
+					runPair(proto, payload, []dgram{{delay: slow + 500, kind: "latematch", n: n1, salt: r.Intn(256)}},
+						other, []dgram{{delay: slow - 500, kind: "match", n: n1 + 1 + r.Intn(60), salt: r.Intn(256)}})
 					continue
 				}
 				switch r.Intn(6) {
